@@ -186,7 +186,14 @@ def one_fault(res, al, steps, i, k, mode, cls, cfg, inj, keep):
     except Exception:  # noqa: BLE001
         pass
     before = res.counters.get("answers_judged", 0)
-    for st2 in steps[i + 1 :]:
+    # the question the backend gave up on is asked again first (same solver, then the branch): nothing the failed
+    # attempt left behind may answer it
+    for sidx in range(len(run.live)):
+        run.step(dict(st, s=sidx))
+        if run.failed:
+            break
+    res.count("faulted_queries_asked_again")
+    for st2 in (steps[i + 1 :] if not run.failed else []):
         run.step(st2)
         if len(run.live) > 1 and st2["op"] not in ("branch",):
             st3 = dict(st2, s=1)
